@@ -1,7 +1,23 @@
 //! Common field parsing functionality shared across modules
 
-use crate::{FieldType, Result, StringRef, Value};
-use std::io::Read;
+use crate::{Error, FieldType, Result, StringRef, Value};
+use std::io::{Cursor, Read};
+
+/// Check that a record of `field_count` 32-bit fields can still be read from `cursor`
+///
+/// Records parsed without a schema are sized by the header's field count, which
+/// is untrusted: it has to be covered by the bytes that are left before a record
+/// of that many values is allocated. Returns the field count as a capacity.
+pub(crate) fn raw_record_capacity(cursor: &Cursor<&[u8]>, field_count: u32) -> Result<usize> {
+    let remaining = (cursor.get_ref().len() as u64).saturating_sub(cursor.position());
+    if field_count as u64 * 4 > remaining {
+        return Err(Error::OutOfBounds(format!(
+            "Record with {field_count} fields needs {} bytes, but only {remaining} bytes are left",
+            field_count as u64 * 4
+        )));
+    }
+    Ok(field_count as usize)
+}
 
 /// Parse a field value based on its type
 pub fn parse_field_value<R: Read>(reader: &mut R, field_type: FieldType) -> Result<Value> {
